@@ -28,13 +28,6 @@ def classify(tags, mode, st):
         b, i, s, d = mem["base"], mem["index"], mem["scale"], mem["disp"]
         if tags.get("asize") == 16 and mode == 32 and (b or i):
             return "X86-16bit-addressing-in-bits32"
-        if tags.get("asize") == 32:
-            if b == "EAX" and i == "EAX" and (s in (None, 1)):
-                return "X86-sib-zero-dropped"
-            if b is None and i and d not in (None, 0):
-                return "X86-index-without-base-disp"
-            if b == "EBP" and i and d in (None, 0):
-                return "X86-ebp-base-index-no-disp"
         has_reg = any(o[0] == "add" and o[1][1][0] == "id" for o in st[2])
         if mem["dt"] and not has_reg:
             if (mode == 16 and w == 32) or (mode == 32 and w == 16):
